@@ -29,7 +29,7 @@ def gen_calls(rng):
         else: calls.append(['serialize', t, be])
     return calls
 
-DOCS = ['a: 1\n', '--- &a [1, *a]\n', '%TAG !e! tag:e.com,2000:\n--- !e!x y\n', '--- !!str x\n', '--- &a x\n', '--- [&a 1, *a]\n...\n', '%YAML 1.1\n--- {k: v}\n', '--- |\n  text\n', "--- 'q'\n...\n", '--- \n- 1\n- 2\n',
+DOCS = ['%TAG ! tag:e.com,2000:\n--- !a 1\n', '--- !a 2\n', '%TAG !! tag:e.com,2000:app/\n--- !!str x\n', '--- !!str y\n', '--- !e!z w\n', '%TAG !e! tag:f.org,1:\n--- !e!z w\n', '--- [!a x, !!int 3]\n', 'a: 1\n', '--- &a [1, *a]\n', '%TAG !e! tag:e.com,2000:\n--- !e!x y\n', '--- !!str x\n', '--- &a x\n', '--- [&a 1, *a]\n...\n', '%YAML 1.1\n--- {k: v}\n', '--- |\n  text\n', "--- 'q'\n...\n", '--- \n- 1\n- 2\n',
         '--- {<<: {a: 1}, b: 2}\n', '--- !!set {a, b}\n', '--- "x"\n']
 def run(ctx):
     ctx.rule = RULE
@@ -41,9 +41,9 @@ def run(ctx):
     for _ in range(ctx.n(2500, 30000)):
         ds = [ctx.rng.choice(DOCS) for _ in range(ctx.rng.choice([1, 2, 3, 4]))]
         ds = [d if (i == 0 or d.startswith(('---', '%'))) else '--- ' + d for i, d in enumerate(ds)]
-        ds = [d if not d.startswith('%') or i == 0 else '...\n' + d for i, d in enumerate(ds)]
-        streams.append([ds, ctx.rng.choice(['py', 'c'])])
-    corr.direct(ctx, 'c11s', streams, describe=lambda c: dict(docs_text=c[0], backend=c[1]), label='stream')
+        seps = ['' if not d.startswith('%') or i == 0 else '...\n' for i, d in enumerate(ds)]      # a directive after a document needs an explicit document end
+        streams.append([ds, ctx.rng.choice(['py', 'c']), seps])
+    corr.direct(ctx, 'c11s', streams, describe=lambda c: dict(docs_text=c[0], backend=c[1], seps=c[2]), label='stream')
     ctx.partial = [dict(theorem='stream_is_list_of_docs / parser_doc_independent / serializer and representer resets', missing='global-write confinement (regenerated) and the per-document reset of the load model are proved; the rest is decided by correspondence and the direct history run')]
     return ctx.finish(assumptions=['fresh interpreter = a fork of a process that has only imported yaml'])
 
@@ -52,5 +52,5 @@ def replay(ctx, path):
     ctx.regen(); ctx.prove()
     c = d.get('case', {})
     if 'calls' in c: corr.direct(ctx, 'c11', [[c['calls']]], describe=lambda c: dict(calls=c[0]))
-    if 'docs_text' in c: corr.direct(ctx, 'c11s', [[c['docs_text'], c.get('backend', 'py')]], describe=lambda c: dict(docs_text=c[0], backend=c[1]))
+    if 'docs_text' in c: corr.direct(ctx, 'c11s', [[c['docs_text'], c.get('backend', 'py'), c.get('seps')]], describe=lambda c: dict(docs_text=c[0], backend=c[1], seps=c[2]))
     return ctx.finish()
